@@ -157,6 +157,54 @@ def c_dispatch_history(ctx, case):
         _dispatch_once(ctx, "C04.dispatch_history", case, spec, classes, subset, args, kw, cached)
 
 
+@check("C04.evolving")
+def c_evolving(ctx, case):
+    """ONE mapper object whose class gains and loses handlers between uses (mix-ins patched in,
+    a handler deleted again): every call dispatches by the handlers the mapper has NOW -- the
+    nearest implemented ancestor, else the unsupported hook -- whatever it was asked before."""
+    spec, subsets = case
+    classes = make_hierarchy(spec)
+    obj = instantiate(classes)
+    log = []
+
+    def mkh(name):
+        def h(self, expr, *a, **k):
+            log.append(name)
+            return ("handled", name)
+        return h
+
+    def unsupported(self, expr, *a, **k):
+        log.append("UNSUPPORTED")
+        return ("handled", "UNSUPPORTED")
+    cls = type(f"Evolving{next(_uid)}", (Mapper,), {"handle_unsupported_expression": unsupported})
+    m = cls()
+    have = set()
+    for step, (subset, args, kw, _c) in enumerate(subsets):
+        for n in have - set(subset):
+            delattr(cls, n)
+        for n in set(subset) - have:
+            setattr(cls, n, mkh(n))
+        have = set(subset)
+        for entry in ("__call__", "rec"):
+            del log[:]
+            ctx.case(None)
+            ctx.count("evolving_dispatches")
+            want = model_dispatch(obj, have)
+            try:
+                m(obj, *args, **kw) if entry == "__call__" else m.rec(obj, *args, **kw)
+            except Exception as ex:  # noqa: BLE001
+                ctx.fail("C04.evolving", case, f"raised:{type(ex).__name__}",
+                         f"step {step}: one mapper object, handlers now {sorted(have)}: {entry} on "
+                         f"{type(obj).__name__} raised {type(ex).__name__}: {ex}")
+                return
+            if log != [want]:
+                ctx.fail("C04.evolving", case, f"stale-handler:{entry}",
+                         f"step {step}: one mapper object whose class now implements "
+                         f"{sorted(have)} (earlier: {[sorted(x[0]) for x in subsets[:step]][-3:]}): "
+                         f"ran {log}, the statement names {want} (hierarchy {spec})")
+                return
+
+
 @check("C04.dispatch")
 def c_dispatch(ctx, case):
     spec, subset, args, kw, cached = case
@@ -1051,6 +1099,7 @@ def workload(ctx):
                     ctx.case(("dispatch-history", tuple(spec), tuple(x[0] for x in seq)), True, n=0)
                     ctx.count("dispatch_histories")
                     ctx.run("C04.dispatch_history", (spec, seq))
+                    ctx.run("C04.evolving", (spec, seq))
         ctx.set_exhaustive("hierarchies (depth<=3, decorated/legacy, explicit/derived) x all handler subsets")
         ctx.sample("dispatch", {"hierarchy": SPECS[-1], "handlers": relevant_handlers(SPECS[-1])})
         for nm, want in GOLDEN.items():
@@ -1127,6 +1176,7 @@ def workload(ctx):
         for k, v in tr.handlers().items():
             ctx.count("handler:" + k, v)
     ctx.floor("wide_nodes", 250)
+    ctx.floor("evolving_dispatches", 300)
     ctx.floor("explicit_same_as_parent", 10)
     ctx.floor("kind_rewrites", 800)
     ctx.floor("registry_dispatches", 12)
